@@ -67,6 +67,10 @@ class Interp:
         self.snap0 = snapshot(self.d, self.s)
         self.consensus = []
         self.instances = {}
+        # after a USER mutation the element ids of the shared dataset may legitimately differ from those of a dataset
+        # built directly from the same rankings (ids are only promised to be a bijection): from then on only
+        # id-independent facts are compared with fresh copies
+        self.mutated = False
         self.steps = 0
         self.runs = []
 
@@ -110,7 +114,19 @@ class Interp:
             st2, c2 = self._run(op, fd, fs)
             if st1 != st2:
                 raise Violation("%s on shared objects: %s, on fresh copies: %s" % (op["config"], st1, st2))
-            if st1 == "ok":
+            if st1 == "ok" and self.mutated:
+                v1 = cons_view(c1)
+                if configs.BY_NAME[op["config"]].exact and abs(float(c1.kemeny_score) - float(c2.kemeny_score)) > 1e-9:
+                    raise Violation("%s after an in-place mutation of the dataset: optimal score %r on the shared "
+                                    "dataset, %r on a fresh dataset with the same rankings" % (
+                                        op["config"], c1.kemeny_score, c2.kemeny_score))
+                if not configs.BY_NAME[op["config"]].rng:
+                    st3, c3 = self._run(op, self.d, self.s, shared=True)
+                    if st3 != "ok" or cons_view(c3) != v1:
+                        raise Violation("%s called twice on the same inputs: %s then %s" % (
+                            op["config"], v1, cons_view(c3) if c3 is not None else st3))
+                self.consensus.append((c1, c2))
+            elif st1 == "ok":
                 v1, v2 = cons_view(c1), cons_view(c2)
                 if v1 != v2:
                     raise Violation("%s on shared objects after %d earlier step(s) returned %s, on fresh copies %s" % (
@@ -127,7 +143,7 @@ class Interp:
                 c1, c2 = self.consensus[op["idx"] % len(self.consensus)]
                 a = (c1.kemeny_score, c1.description().replace("shared", ""), str(c1))
                 b = (c2.kemeny_score, c2.description().replace("shared", ""), str(c2))
-                if abs(float(a[0]) - float(b[0])) > 1e-9:
+                if not self.mutated and abs(float(a[0]) - float(b[0])) > 1e-9:
                     raise Violation("kemeny_score read on the shared consensus %r, on the fresh one %r" % (a[0], b[0]))
             self.runs.append("read")
         elif kind == "partition":
@@ -136,7 +152,9 @@ class Interp:
             with lib.quiet():
                 p1 = [sorted(elem_key(e) for e in g) for g in f(self.d, self.s).partition]
                 p2 = [sorted(elem_key(e) for e in g) for g in f(fd, fs).partition]
-            if p1 != p2:
+            if self.mutated and op["which"] == "parcons":
+                p1, p2 = sorted(p1), sorted(p2)          # the components are id-independent, their order need not be
+            if p1 != p2 and not (self.mutated and op["which"] == "parfront"):
                 raise Violation("%s partition on shared objects %s, on fresh copies %s" % (op["which"], p1, p2))
             self.runs.append("read")
         elif kind == "kemeny":
@@ -148,10 +166,46 @@ class Interp:
                 raise Violation("get_kemeny_score on shared objects %r, on fresh copies %r" % (a, b))
             self.runs.append("read")
         elif kind == "view":
+            if self.mutated and op["which"] in ("positions", "bucket_ids", "str", "description"):
+                self._view(op, self.d)           # id- or iteration-order dependent: exercised, not compared
+                self.check_unchanged(str(op))
+                return
             fd, fs = self.fresh()
             a, b = self._view(op, self.d), self._view(op, fd)
             if a != b:
                 raise Violation("dataset view %s on the shared dataset %s, on a fresh copy %s" % (op["which"], a, b))
+        elif kind == "mutate":
+            # the USER mutates the shared dataset in place; from then on 'fresh copies' are built from the new rankings
+            univ = oracle.universe(self.raw)
+            if op["how"] == "remove_empty":
+                new = [r for r in self.raw if r]
+                if not new:
+                    return
+                self.d.remove_empty_rankings()
+            else:
+                if len(univ) < 2:
+                    return
+                e = sorted(univ, key=lambda v: (str(type(v)), v))[op["which"] % len(univ)]
+                new = [r2 for r2 in (oracle.project(r, set(univ) - {e}) for r in self.raw) if r2]
+                if not new:
+                    return
+                self.d.remove_elements({lib.Element(e)})
+            self.raw = new
+            self.mutated = True
+            self.d.name = "shared"
+            self.snap0 = snapshot(self.d, self.s)
+            fd, fs = self.fresh()
+            snap_fresh = snapshot(fd, fs)
+            sem = [k for k in snap_fresh if k not in ("elem_id", "id_elem", "rankings")]
+            cnt = lambda sn: sorted(sn["rankings"])          # noqa: rankings compared as a multiset
+            if any(snap_fresh[k] != self.snap0[k] for k in sem) or cnt(snap_fresh) != cnt(self.snap0):
+                diff = [k for k in sem + ["rankings"] if snap_fresh[k] != self.snap0[k]]
+                raise Violation("after the in-place mutation %s the dataset differs from a fresh dataset with the same "
+                                "rankings in %s: %s vs %s" % (op, diff, {k: self.snap0[k] for k in diff},
+                                                              {k: snap_fresh[k] for k in diff}))
+            self.consensus = []
+            self.runs.append("read")
+            return
         elif kind == "scheme":
             fd, fs = self.fresh()
             a, b = self._scheme(op, self.s), self._scheme(op, fs)
@@ -326,6 +380,10 @@ def machine_factory(ctx, tier):
         @rule(which=st.sampled_from(VIEWS), mask=st.integers(1, 255))
         def view(self, which, mask):
             self._do({"op": "view", "which": which, "mask": mask})
+
+        @rule(how=st.sampled_from(["remove_empty", "remove_empty", "remove_element"]), which=st.integers(0, 7))
+        def mutate(self, how, which):
+            self._do({"op": "mutate", "how": how, "which": which})
 
         @rule(which=st.sampled_from(SCHEME_OPS), k=st.sampled_from([0.5, 2, 3.0, 1]), other=gen.dyadic_schemes())
         def scheme(self, which, k, other):
